@@ -184,7 +184,7 @@ def run(F, S, R, tier):
     def refusal():
         rec = F.need(VERIFY + "reconcile_main_chain")
         vb = F.need(VERIFY + "verify_block")
-        arms = K.enum_arms(rec, "core::option::Option", [r"var:found_error"])
+        arms = K.enum_arms(rec, "core::option::Option", [r"vty:core::option::Option<ckb_error::Error>$"])
         commit = {c.bb for c in rec.calls_to(r"mmr::MMR::<.*>::commit$")}
         if not arms or not commit:
             R.bad("mustcall/refusal/anchor-lost", "found_error / mmr.commit not found in reconcile_main_chain", [rec.where()])
@@ -210,7 +210,7 @@ def run(F, S, R, tier):
                    assume=[(r"Switch::disable_all$", False), (r"Option::<.*>::is_none$", False), (r"VecDeque::<.*>::is_empty$", False)],
                    ends={c.bb for c in rec.calls if c.callee.endswith("Iterator::next") and K.src_match(rec.operand_sources(c.args[0]), [r"call:.*Iterator::zip$"])} and None,
                    what="blocks after a failed one are marked failed") if False else None
-        isnone = [c for c in rec.calls_to(r"Option::<.*>::is_none$") if K.src_match(rec.operand_sources(c.args[0]), [r"var:found_error"])]
+        isnone = [c for c in rec.calls_to(r"Option::<.*>::is_none$") if K.src_match(rec.operand_sources(c.args[0]), [r"vty:core::option::Option<ckb_error::Error>$"])]
         if not isnone:
             R.bad("mustcall/refusal/mark-rest/anchor-lost", "found_error.is_none() test not found", [rec.where()])
         else:
